@@ -114,6 +114,8 @@ class Z3Conv:
             self.axioms.append(z3.Implies(za > 0, v > 1))
             self.axioms.append(z3.Implies(za < 0, v < 1))
             self.axioms.append(v >= 1 + za)
+            for zb, vb in self.occ["exp"]:
+                self.axioms.append(z3.Implies(za == -zb, v * vb == 1))
             self._mono("exp", za, v)
         return v
 
@@ -196,6 +198,15 @@ class Z3Conv:
 
     def _conv(self, e):
         c = self.conv
+        # distribute powers / unary functions over an if-then-else argument, so that sympy folds each
+        # branch on its own (10**(log(x)/log(10)) -> x)
+        if isinstance(e, (sp.Pow, sp.exp, sp.log, sp.sin, sp.cos, sp.tan, sp.acos, sp.asin, sp.atan, sp.Abs)) and any(isinstance(a, Ite) for a in e.args):
+            k = [i for i, a in enumerate(e.args) if isinstance(a, Ite)][0]
+            it = e.args[k]
+            a1 = list(e.args)
+            a2 = list(e.args)
+            a1[k], a2[k] = it.args[1], it.args[2]
+            return z3.If(c(it.args[0]), c(e.func(*a1)), c(e.func(*a2)))
         if e is sp.true:
             return z3.BoolVal(True)
         if e is sp.false:
